@@ -340,7 +340,7 @@ where
 //@endfn
 //@fn src/volatile_memory.rs :: impl<'a, T, B> VolatileRef<'a, T, B> :: len :: tags=C01
 //@spec
-    ensures r == vstd::layout::size_of::<T>(),
+    ensures r == vstd::layout::size_of::<T>(), // [C01,C17]
 //@end
 //@endfn
 //@fn src/volatile_memory.rs :: impl<'a, T, B> VolatileRef<'a, T, B> :: store :: tags=C01,C07
@@ -401,12 +401,12 @@ where
 //@endfn
 //@fn src/volatile_memory.rs :: impl<'a, T, B> VolatileArrayRef<'a, T, B> :: len :: tags=C01
 //@spec
-    ensures r == self.nelem,
+    ensures r == self.nelem, // [C01,C17]
 //@end
 //@endfn
 //@fn src/volatile_memory.rs :: impl<'a, T, B> VolatileArrayRef<'a, T, B> :: element_size :: tags=C01
 //@spec
-    ensures r == vstd::layout::size_of::<T>(),
+    ensures r == vstd::layout::size_of::<T>(), // [C01,C17]
 //@end
 //@endfn
 //@fn src/volatile_memory.rs :: impl<'a, T, B> VolatileArrayRef<'a, T, B> :: ptr_guard :: tags=C17
